@@ -120,9 +120,12 @@ class Seq(object):
     service.setupRelayProcessor(self.root, self.settings)     # carbon's own wiring
     self.manager = state.client_manager
     self.root.startService()
-    self.hard = client.SEND_QUEUE_HARD_MAX
-    self.low = client.SEND_QUEUE_LOW_WATERMARK
+    # the limits the oracles use are derived here from the documented settings (carbon.conf.example), not read back from
+    # carbon's own constants; a disagreement between the two is reported once per process by the checks
     self.maxq = self.settings.MAX_QUEUE_SIZE
+    self.hard = self.maxq * self.settings.MAX_QUEUE_SIZE_HARD_PCT if self.settings.USE_FLOW_CONTROL else self.maxq
+    self.low = self.maxq * self.settings.QUEUE_LOW_WATERMARK_PCT
+    self.carbon_limits = (client.SEND_QUEUE_HARD_MAX, client.SEND_QUEUE_LOW_WATERMARK)
     self.cap = int(math.ceil(self.hard))
     self.nid = 0
     self.stopped = False
